@@ -18,6 +18,7 @@ BUG_CASES = [
     ("D6", M("kv", gas=(0, 5, 1000)), "InvNoViol"),
     ("D7", M("ESDTTransfer,issue,MultiESDTNFTTransfer", hs=("u0a", "u1a", "c1a")), "InvNoViol"),
     ("D10", M("ESDTTransfer,issue,MultiESDTNFTTransfer,flags", hs=("u0a", "u0b"), supply=3), "InvNoViol"),
+    ("D12", M("create,ESDTNFTTransfer,nftflags"), "InvNoViol"),
     ("D11", M("ESDTTransfer,issue,MultiESDTNFTTransfer,flags", hs=("u0a", "u0b"), supply=3), "InvNoViol"),
 ]
 
